@@ -9,7 +9,7 @@
    session can move (it waits for the client or the service). *)
 From Coq Require Import List Arith.
 Import ListNotations.
-From Onet Require Import Api.Stream Api.StreamProofs Corr.C15 Api.StreamCheckProofs.
+From Onet Require Import Api.Stream Api.StreamProofs Api.StreamStop Api.StreamStopProofs Corr.C15 Api.StreamCheckProofs.
 
 (* ---- the server does not crash -------------------------------------------- *)
 
@@ -122,6 +122,26 @@ Theorem c15_stop_refuted :
     cleft (nt s) = true /\ crashed s = false /\ map stp (reqs (pc s)) = [false].
 Proof. exact stop_refuted. Qed.
 Print Assumptions c15_stop_refuted.
+
+(* the stoppers in detail (Api/StreamStop.v: lock / test / close as separate steps):
+   for any number of requests, any sharing of stop channels among them and any
+   interleaving, no stop channel is closed twice *)
+Theorem c15_stop_closed_once : forall chans acts s,
+  srun1 true (sinit1 chans) acts = Some s -> scrash s = false /\ NoDup (closes s).
+Proof. exact stop_closed_once. Qed.
+Print Assumptions c15_stop_closed_once.
+
+(* without the mutex around test-and-close two requests sharing a stop channel crash the server *)
+Theorem c15_stop_closed_twice_refuted :
+  exists acts s, srun1 false (sinit1 [0; 0]) acts = Some s /\ scrash s = true.
+Proof. exact stop_closed_twice_refuted. Qed.
+Print Assumptions c15_stop_closed_twice_refuted.
+
+Example c15_stop_shared_example :
+  exists acts s, srun1 true (sinit1 [0; 0]) acts = Some s /\ closes s = [0] /\
+    map snd (stoppers s) = [PDone; PDone].
+Proof. exact stop_shared_example. Qed.
+Print Assumptions c15_stop_shared_example.
 
 Theorem c15_quiescentb_sound : forall fx s, quiescentb fx s = true -> quiescent fx s.
 Proof. exact quiescentb_sound. Qed.
